@@ -367,6 +367,8 @@ def _wake_kernel(
 def _wake_collision_kernel(
   # Model:
   ntree: int,
+  body_weldid: wp.array[int],
+  body_mocapid: wp.array[int],
   body_treeid: wp.array[int],
   geom_bodyid: wp.array[int],
   # Data in:
@@ -393,10 +395,18 @@ def _wake_collision_kernel(
   tree1 = body_treeid[b1]
   tree2 = body_treeid[b2]
 
+  worldid = contact_worldid_in[conid]
+
+  # a mocap body (or a body welded to one) has no tree but is always awake: touching it wakes a sleeping tree
   if tree1 < 0 or tree2 < 0:
+    if tree1 >= 0 and body_mocapid[body_weldid[b2]] >= 0:
+      if tree_awake_in[worldid, tree1] == 0:
+        _wake_tree(ntree, worldid, tree1, K_AWAKE_VAL, tree_asleep_out)
+    elif tree2 >= 0 and body_mocapid[body_weldid[b1]] >= 0:
+      if tree_awake_in[worldid, tree2] == 0:
+        _wake_tree(ntree, worldid, tree2, K_AWAKE_VAL, tree_asleep_out)
     return
 
-  worldid = contact_worldid_in[conid]
   awake1 = tree_awake_in[worldid, tree1]
   awake2 = tree_awake_in[worldid, tree2]
 
@@ -748,6 +758,8 @@ def wake_collision(m: types.Model, d: types.Data):
     dim=d.naconmax,
     inputs=[
       m.ntree,
+      m.body_weldid,
+      m.body_mocapid,
       m.body_treeid,
       m.geom_bodyid,
       d.tree_awake,
